@@ -11,6 +11,8 @@ the real apply_simp and rendered with the real writer; the oracle demands
 * introduced declarations declare symbols not yet declared and are placed
   before their first use.
 """
+import signal
+
 from vlib import budget, common, gen_smt, refmodel, refreader, shapes, \
     workload
 
@@ -67,6 +69,17 @@ def tricky_prefix(r):
         out.append(['declare-const', r.choice(['dv_prefixx', 'dv_suffix0']),
                     'String'])
         out.append(['assert', ['str.contains', 'dv', '"d"']])
+    if r.random() < 0.4:
+        # several generations of invented names are taken already (ddSMT run
+        # on its own output, or a third containment on one variable)
+        out.append(['declare-const', 'gv', 'String'])
+        gens = r.randint(1, 3)
+        for g in range(gens):
+            for kind in r.sample(['prefix', 'suffix'], r.randint(1, 2)):
+                out.append(['declare-const', f'gv_{kind}' + '_' * g,
+                            'String'])
+        for lit in r.sample(['"a"', '"b"', '"c"'], r.randint(1, 3)):
+            out.append(['assert', ['str.contains', 'gv', lit]])
     if r.random() < 0.3:
         out.append(['declare-const', 'falsy', 'Bool'])
         out.append(['assert', ['or', 'falsy', ['not', 'falsy']]])
@@ -318,7 +331,40 @@ def mutator_instances(ns):
     return out
 
 
+class _Stalled(BaseException):
+    pass
+
+
+ROUND_WATCHDOG = 60
+_STATE = {'proposing': None}
+
+
+def _on_alarm(signum, frame):
+    raise _Stalled()
+
+
 def explore(ns, res, r, nested, origin, rounds):
+    """A mutator that never delivers its proposals (termination is C03's)
+    must not stall this check: a wall-clock watchdog per round makes the
+    check inconclusive and names the mutator."""
+    signal.signal(signal.SIGALRM, _on_alarm)
+    try:
+        return _explore(ns, res, r, nested, origin, rounds)
+    except _Stalled:
+        res.count('rounds_stalled')
+        res.add_set('stalled_while_proposing', str(_STATE['proposing']))
+        res.inconclusive.append(
+            f'a round of proposals did not finish within {ROUND_WATCHDOG} s '
+            f'(last mutator asked: {_STATE["proposing"]}); hanging mutators '
+            f'are judged by C03')
+    finally:
+        signal.setitimer(signal.ITIMER_REAL, 0)
+
+
+def _explore(ns, res, r, nested, origin, rounds):
+    if res.counters.get('rounds_stalled'):
+        # one stall is enough to make the check inconclusive
+        return
     text = refreader.render(nested)
     exprs = list(ns.nodeio.parse_smtlib(text))
     muts = mutator_instances(ns)
@@ -363,8 +409,10 @@ def explore(ns, res, r, nested, origin, rounds):
                         res.count('exceptions_while_proposing')
                         res.add_set('exceptions',
                                     f'{mname}:{type(e).__name__}')
+        signal.setitimer(signal.ITIMER_REAL, ROUND_WATCHDOG)
         for node, mname, m, filtered in order:
             if True:
+                _STATE['proposing'] = mname
                 try:
                     if not filtered and hasattr(m, 'filter') and \
                             not m.filter(node):
